@@ -1263,7 +1263,9 @@ fn sgr_face(data: &[u8]) -> FaceModify {
             }
             // bold
             Some(1) => face.bold = Some(true),
-            Some(21) => face.bold = Some(false),
+            Some(22) => face.bold = Some(false),
+            // doubly underlined (ECMA-48), some terminals used it as bold off
+            Some(21) => face.underline = Some(UnderlineStyle::Double),
             // italic
             Some(3) => face.italic = Some(true),
             Some(23) => face.italic = Some(false),
